@@ -75,6 +75,32 @@ CORPUS = ["\ue000\t", "\ue000 x", "\ue000a", "\\10x", "\\e000 1", "\ue0001", "a\
           "\\a 1", "\\a\tx", "\\0", "\\-\\ \\x", "", "plain text", "\\78 y", "\\5c 41 ", "\\1f600 ", "é中\U0001F600", "\\20", "\\20 x", " "]
 
 
+# the interpolation family: ASCII bodies with control-character escapes followed by non-hex and, later, hex characters
+INTERP_CORPUS = ["one\\a two, next", "tab\\1f xyz 42", "x\\a bc", "one\\a two", "\\7f zzz9", "a\\a \\a b", "plain next", "q\\a\tz1",
+                 "\\a", "\\a g", "\\1f ,;f", "it's \\a ok e", "\\\\ x\\a yz0"]
+NONHEX = list("ghijklmnopqrstuvwxyzGHXYZ ,;:!?()-_'")
+HEXCH = list("0123456789abcdefABCDEF")
+
+
+def rand_interp_body(rng):
+    out = ""
+    for _ in range(rng.randint(1, 4)):
+        r = rng.random()
+        if r < 0.55:
+            h = rng.choice(["a", "1f", "7f", "1", "c", "0a", "00001f"])
+            out += "".join(rng.choice(NONHEX + HEXCH) for _ in range(rng.choice([0, 1, 2])))
+            nxt = "".join(rng.choice(NONHEX) for _ in range(rng.choice([0, 1, 1, 2, 3])))
+            tail = "".join(rng.choice(NONHEX + HEXCH + HEXCH) for _ in range(rng.choice([0, 1, 2, 4])))
+            out += "\\" + h + " " + nxt + tail
+        elif r < 0.8:
+            out += "".join(rng.choice(NONHEX + HEXCH) for _ in range(rng.randint(1, 4)))
+        elif r < 0.9:
+            out += "\\\\"
+        else:
+            out += rng.choice(['\\"', "\t"])
+    return out
+
+
 CORPUS_SQ = ["\\10x", "a\\'b", 'a"b', "it\\'s", "x\\\ny", "\\a\\\n1", "a\\ ", "\\22 ", "\\27 ", "plain text", "", "\ue0001", "\\d800",
              "\\41 b", "a\\\\b", "\\a 1", '\\"']
 
@@ -88,6 +114,9 @@ def gen_cases(ctx, tier):
         cases.append({"body": rand_body(rng), "single": False})
     for _ in range(n // 3):
         cases.append({"body": rand_body(rng, True), "single": True})
+    cases += [{"body": b, "single": False, "interp": True} for b in INTERP_CORPUS]
+    for _ in range(n // 4):
+        cases.append({"body": rand_interp_body(rng), "single": False, "interp": True})
     return cases
 
 
@@ -99,6 +128,8 @@ def program(c):
     b = c["body"]
     q = "'" if c.get("single") else '"'
     lit = q + b + q
+    if c.get("interp"):
+        return ('$s: %s;\na {\n  t: "#{$s}";\n  l: inspect("#{$s}" == $s);\n  q: str-length("#{$s}");\n  u: str-length($s);\n}\n' % lit)
     return ('a {\n  t: %s;\n  l: str-length(%s);\n  q: quote(unquote(%s));\n  u: unquote(%s);\n}\n' % (lit, lit, lit, lit))
 
 
@@ -151,7 +182,7 @@ def coq_term(c, io):
         impl = "None"
     else:
         impl = "(Some " + clist([ccps(x) for x in fs]) + ")"
-    return f"(mkCase {cbool(c.get('single', False))} {ccps(c['body'])} {impl})"
+    return f"(mkCase {cbool(c.get('interp', False))} {cbool(c.get('single', False))} {ccps(c['body'])} {impl})"
 
 
 KCLASS = {0: None, 1: "known_C27_K1_length_counts_stored_text", 2: "known_C27_K2_token_denotes_other_string",
@@ -161,12 +192,13 @@ KCLASS = {0: None, 1: "known_C27_K1_length_counts_stored_text", 2: "known_C27_K2
 def judge(c, io, r):
     corr, c1, k1, c2, k2, c3, k3 = r
     b = c["body"]
+    names = (("interpolated-token-denotes-string", "-", "interpolation-keeps-string-and-length") if c.get("interp")
+             else ("emitted-token-denotes-string", "length-counts-code-points", "quote-unquote-identity"))
     return {
         "corr": None if corr == 2 else (corr == 1 and io[0][0] in ("ok", "err")),
-        "clauses": [("emitted-token-denotes-string", c1 == 1, KCLASS[k1]), ("length-counts-code-points", c2 == 1, KCLASS[k2]),
-                    ("quote-unquote-identity", c3 == 1, KCLASS[k3])],
+        "clauses": [(names[0], c1 == 1, KCLASS[k1]), (names[1], c2 == 1, KCLASS[k2]), (names[2], c3 == 1, KCLASS[k3])],
         "nontrivial": ("\\" in b) or ("'" in b) or any(0xE000 <= ord(ch) <= 0xF8FF or ord(ch) >= 0xF0000 for ch in b),
-        "tags": (["single-quoted"] if c.get("single") else ["double-quoted"]) + (["escape"] if "\\" in b else ["plain"]) + (["error"] if io[0][0] == "err" else []),
+        "tags": (["interpolated"] if c.get("interp") else []) + (["single-quoted"] if c.get("single") else ["double-quoted"]) + (["escape"] if "\\" in b else ["plain"]) + (["error"] if io[0][0] == "err" else []),
         "show": program(c).replace("\n", " "),
         "detail": program(c),
     }
@@ -178,7 +210,7 @@ def shrink(c):
         nb = b[:i] + b[i + 1:]
         if nb.endswith("\\") and not nb.endswith("\\\\"):
             continue
-        yield {"body": nb, "single": c.get("single", False)}
+        yield {"body": nb, "single": c.get("single", False), "interp": c.get("interp", False)}
 
 
 LEVEL_TEXT = ("proof (partial): the double- and single-quoted literal readers of parser/strings.rs (escaped_char, normalized_escaped_char_q, "
